@@ -95,9 +95,14 @@ def build(repo: Repo):
         typer = Typer(repo, FIELD_SEEDS)
         cg = CallGraph(repo, typer, DISPATCH)
         # one round of argument -> untyped-parameter propagation, then rebuild
-        if cg.propagate_args():
+        changed = False
+        for _ in range(4):
+            if not cg.propagate_args():
+                break
+            changed = True
             typer._env.clear()
             typer._ret.clear()
+        if changed:
             typer._collect_field_assignments()
             typer._env.clear()
             typer._ret.clear()
